@@ -2515,3 +2515,92 @@ package sdf
 //@   ensures [ordered] !isnil(r) ==> ord3(r.BoundingBox())
 //@   ensures [encloses-every-copy] !isnil(r) && d < 0 ==> r.BoundingBox().Contains(p)
 //@ end
+
+//@ func Polygon.arcVertex
+//@   property C17
+//@   id arc-geometry
+//@   requires 0 <= i && i < len(p.vlist) && len(p.vlist) >= 2
+//@   requires p.vlist[i].vtype == pvArc ==> p.vlist[i].facets >= 1
+//@   requires forall k int :: 0 <= k && k < len(p.vlist) && k != i ==> p.vlist[k].vertex != p.vlist[i].vertex
+//@   invariant 0 rangeindex >= -1 && rangeindex < len(vlist)
+//@   let ch = b.Sub(a)
+//@   let lc = ch.Length()
+//@   let hm = mid.Sub(a)
+//@   focus requires path-int
+//@   assert [chord-has-length] r ==> ch.Length2() > 0
+//@   assert [chord-length] r ==> lc > 0 && sq(lc) == ch.Length2()
+//@   focus chord-length
+//@   assert [unit-chord-direction] r ==> ba.Length2() == 1
+//@   assert [normal-turned-to-the-chosen-side] r ==> n == v2.Vec{ba.Y, -ba.X}.MulScalar(side) && (side == 1 || side == -1 || side == 0)
+//@   assert [half-chord] r ==> hm == ch.MulScalar(0.5) && sq(dMid) == hm.Length2() && dMid >= 0
+//@   assert [half-chord-along-the-chord] r ==> hm == ba.MulScalar(0.5*lc)
+//@   assert [start-relative-to-the-centre] r ==> a.Sub(c) == hm.MulScalar(-1).Sub(c.Sub(mid))
+//@   assert [end-relative-to-the-centre] r ==> b.Sub(c) == hm.Sub(c.Sub(mid))
+//@   assert [centre-offset-from-the-midpoint] r && sq(radius) >= sq(dMid) ==> dCenter >= 0 && sq(dCenter) == sq(radius) - sq(dMid)
+//@   assert [centre] r ==> c.Sub(mid) == n.MulScalar(dCenter)
+//@   generalize ba
+//@   generalize lc
+//@   generalize hm
+//@   generalize dCenter
+//@   generalize dMid
+//@   focus unit-chord-direction normal-turned-to-the-chosen-side half-chord-along-the-chord
+//@   assert [unit-normal-to-the-chord] r ==> n.Length2() == sq(side) && n.Dot(ba) == 0
+//@   assert [side-of-the-chord] r ==> n.Dot(v2.Vec{ba.Y, -ba.X}) == side
+//@   assert [half-chord-perpendicular-to-the-normal] r ==> hm.Dot(n) == 0.5*lc*n.Dot(ba)
+//@   focus unit-normal-to-the-chord half-chord-perpendicular-to-the-normal centre half-chord
+//@   assert [half-chord-perpendicular-to-the-offset] r ==> hm.Dot(c.Sub(mid)) == 0
+//@   assert [offset-length] r ==> c.Sub(mid).Length2() == sq(side)*sq(dCenter)
+//@   assert [half-chord-length] r ==> hm.Length2() == sq(dMid)
+//@   focus start-relative-to-the-centre end-relative-to-the-centre half-chord-perpendicular-to-the-offset offset-length half-chord-length centre-offset-from-the-midpoint side-of-the-chord centre normal-turned-to-the-chosen-side
+//@   ensures [the-centre-is-one-radius-from-the-previous-vertex] r && side != 0 && sq(radius) >= sq(dMid) ==> a.Sub(c).Length2() == sq(radius)
+//@   ensures [and-from-the-arc-end] r && side != 0 && sq(radius) >= sq(dMid) ==> b.Sub(c).Length2() == sq(radius)
+//@   ensures [on-the-side-of-the-chord-chosen-by-the-sign-of-the-radius] r ==> c.Sub(mid).Dot(v2.Vec{ba.Y, -ba.X}) == side*dCenter
+//@ end
+
+//-----------------------------------------------------------------------------
+// Rotate-unions: the n-th copy is seen through the n-th power of the stored
+// (inverse) step; the box is the hull of the operand box's corners under the
+// powers of the step itself.
+
+//@ spec rec rupow3(s *RotateUnionSDF3, n int) M44 = ite(n <= 0, Identity3d(), rupow3(s, n - 1).Mul(s.step))
+//@ spec rec fpow3(m M44, n int) M44 = ite(n <= 0, Identity3d(), m.Mul(fpow3(m, n - 1)))
+//@ spec rec rupow2(s *RotateUnionSDF2, n int) M33 = ite(n <= 0, Identity2d(), rupow2(s, n - 1).Mul(s.step))
+//@ spec rec fpow2(m M33, n int) M33 = ite(n <= 0, Identity2d(), m.Mul(fpow2(m, n - 1)))
+
+//@ func RotateUnionSDF3.Evaluate
+//@   property C02 C01
+//@   id value-of-the-operand-at-one-rotated-point
+//@   requires s.num >= 1
+//@   requires forall a float64, b float64 :: s.min(a, b) == min(a, b)
+//@   requires forall q v3.Vec :: s.sdf.Evaluate(q) <= math.MaxFloat64
+//@   witnesses 0 i - 1
+//@   invariant 0 0 <= i && i <= s.num && rot == rupow3(s, i)
+//@   invariant 0 exists w int :: (i == 0 && d == math.MaxFloat64) || (0 <= w && w < i && d == s.sdf.Evaluate(rupow3(s, w).MulPosition(p)))
+//@   ensures [the-operand-seen-from-the-point-moved-by-one-of-the-first-num-powers-of-the-stored-step-starting-with-none] exists w int :: 0 <= w && w < s.num && r == s.sdf.Evaluate(rupow3(s, w).MulPosition(p))
+//@ end
+
+//@ func RotateUnionSDF2.Evaluate
+//@   property C02 C01
+//@   id value-of-the-operand-at-one-rotated-point
+//@   requires s.num >= 1
+//@   requires forall a float64, b float64 :: s.min(a, b) == min(a, b)
+//@   requires forall q v2.Vec :: s.sdf.Evaluate(q) <= math.MaxFloat64
+//@   witnesses 0 i - 1
+//@   invariant 0 0 <= i && i <= s.num && rot == rupow2(s, i)
+//@   invariant 0 exists w int :: (i == 0 && d == math.MaxFloat64) || (0 <= w && w < i && d == s.sdf.Evaluate(rupow2(s, w).MulPosition(p)))
+//@   ensures [the-operand-seen-from-the-point-moved-by-one-of-the-first-num-powers-of-the-stored-step-starting-with-none] exists w int :: 0 <= w && w < s.num && r == s.sdf.Evaluate(rupow2(s, w).MulPosition(p))
+//@ end
+
+//@ func RotateUnion3D
+//@   property C01 C02
+//@   id box-of-all-copies
+//@   requires ord3(sdf.BoundingBox())
+//@   prelet v0 = sdf.BoundingBox().Vertices()
+//@   invariant 0 0 <= i && i <= s.num && len(v) == 8 && s.num == num && num >= 1
+//@   invariant 0 forall t int :: 0 <= t && t < 8 ==> v[t] == fpow3(step, i).MulPosition(v0[t])
+//@   invariant 0 forall t int :: 0 <= t && t < 8 ==> bbMin.X <= v0[t].X && bbMin.Y <= v0[t].Y && bbMin.Z <= v0[t].Z && bbMax.X >= v0[t].X && bbMax.Y >= v0[t].Y && bbMax.Z >= v0[t].Z
+//@   invariant 0 forall k int, t int :: 0 <= k && k < i && 0 <= t && t < 8 ==> bbMin.X <= fpow3(step, k).MulPosition(v0[t]).X && bbMin.Y <= fpow3(step, k).MulPosition(v0[t]).Y && bbMin.Z <= fpow3(step, k).MulPosition(v0[t]).Z && bbMax.X >= fpow3(step, k).MulPosition(v0[t]).X && bbMax.Y >= fpow3(step, k).MulPosition(v0[t]).Y && bbMax.Z >= fpow3(step, k).MulPosition(v0[t]).Z
+//@   ensures [no-copies-no-shape] num <= 0 <==> isnil(r)
+//@   ensures [the-union-looks-back-through-the-inverse-step] !isnil(r) ==> r.step == step.Inverse() && r.num == num && r.sdf == sdf
+//@   ensures [the-box-holds-every-corner-of-the-operand-box-under-every-power-of-the-step-up-to-num-minus-one] forall k int, t int :: !isnil(r) && 0 <= k && k < num && 0 <= t && t < 8 ==> r.bb.Contains(fpow3(step, k).MulPosition(v0[t]))
+//@ end
